@@ -174,7 +174,7 @@ def gen_call(rng, reg, enter, w_required=0.0, w_bad=0.05):
     if rng.random() < 0.35:
       kwargs.append([nm, REQ if rng.random() < w_required else caller_value(rng)])
   if sig['varkw'] or rng.random() < w_bad:
-    for nm in rng.sample(['e1', 'e2'], rng.randint(0, 2)):
+    for nm in rng.sample(['e1', 'e2', 'anyk'], rng.randint(0, 2)):   # 'anyk' is the **kwargs-only name bindings use
       kwargs.append([nm, REQ if rng.random() < w_required else caller_value(rng)])
   rng.shuffle(kwargs)
   op = {'op': 'call', 'sel': reg['_selector'], 'enter': enter, 'args': args, 'kwargs': kwargs,
@@ -184,6 +184,8 @@ def gen_call(rng, reg, enter, w_required=0.0, w_bad=0.05):
     op['_selfname'] = sig['pos'][0][0]
   if reg['_api'] == 'configurable' and rng.random() < 0.2:
     op['_via'] = 'get_configurable'
+  if rng.random() < 0.1:
+    op['_left_by'] = [rng.choice(['zz', 'a', 'a/b']), rng.random() < 0.6]
   if enter and rng.random() < 0.12:
     # inside the entered scopes, a scope entry that is rejected (and caught) must leave them intact
     op['_bad_enter'] = rng.choice(['not valid!', 'a b', '1x', 'a//b', '/a', 'a/', 42])
